@@ -100,6 +100,17 @@ def handle : List String → String
       | some parts => if shapesOk parts then s!"ok {showVecs (composite parts)}" else "err shape"
       | none => "bad-op"
     | _ => "bad-op"
+  | "ops" :: "loop" :: maxAttempts :: checks :: rest =>
+    -- `ops loop <max_attempts> <verdicts as 0/1 string> | op | op …` (one op per attempt)
+    match maxAttempts.toNat?, splitBar rest with
+    | some k, [] :: subs =>
+      match subs.mapM dispOp with
+      | some ts =>
+        match moveLoop k ts (checks.toList.map (· = '1')) with
+        | some d => s!"ok {showVecs d}"
+        | none => "none"
+      | none => "bad-op"
+    | _, _ => "bad-op"
   | "ops" :: "dcomp" :: rest =>
     match splitBar rest with
     | [] :: subs =>
